@@ -4,6 +4,7 @@ import RpgpProofs.Canon
 import RpgpProofs.CanonReader
 import RpgpProofs.Framing
 import RpgpProofs.Seipd1
+import RpgpProofs.Utf8
 /-!
 # C09 — streaming is transparent: results independent of I/O fragmentation and faults
 
@@ -100,6 +101,14 @@ theorem emitter_roundtrip (tag k : Nat) (hdr body rest : Bytes)
     (hb : hdr.length + body.length < 4294967296) :
     ∃ h, deframe (emitPartial tag k hdr body ++ rest) = .ok (h, hdr ++ body, rest) ∧ h.tag = tag :=
   deframe_emitPartial tag k hdr body rest hallow hk9 hk30 hh hb
+
+/-- `Utf8CheckReader` (UTF-8 overhang carried across reads): for any "valid up to" function with
+the prefix laws of a left-to-right scanner over sequences of at most four octets, the reader
+accepts a stream, however it is fragmented, iff the whole stream is valid -/
+theorem utf8_check_chunk_independent (vut : Bytes → Nat) (L : VutLaws vut) (hnil : vut [] = 0)
+    (cs : List Bytes) :
+    utf8CheckChunks vut [] cs = true ↔ vut cs.flatten = cs.flatten.length :=
+  utf8Check_chunk_independent vut L hnil cs
 
 /-- the CFB encryptor's buffer size used in the instantiation -/
 theorem constants : 22 < Gen.symDecBufferSize ∧ 2 ≤ Gen.normalizedReaderWindow := by decide
